@@ -12,7 +12,8 @@
   * `i32` fields are `Int` (unbounded).  Every operation on them in this file is `+`, `-`, negation or
     assignment, i.e. a ring homomorphism to Z/2^32, so the release build's wrapping result is
     `wrap32` of the model's result (the driver prints `wrap32`); `attach_chain` is an `i16` and is
-    wrapped (`wrap16`) exactly where Rust casts `as i16` or negates an `i16`;
+    wrapped (`wrap16`) exactly where Rust casts `as i16` or negates an `i16` — since the i16 guard in
+    MarkArray / CursivePos (D13b fixed) those casts are exact (`Lemmas: ChainOK`);
   * `propagate_attachment_offsets` carries HarfBuzz's `nesting_level` budget (D13 fixed): the model recursion
     is structural on it.  `reverse_cursive_minor_offset` still has no limit (as in HarfBuzz); it terminates
     because each frame zeroes one non-zero `attach_chain` before recursing; its model recursion is structural
